@@ -145,11 +145,11 @@ var c12Decoders = []c12Dec{
 		n, err := types.NewDecoder().DecodeWithConsumed(s, &x)
 		return err == nil, x.V, n
 	}},
-	{"types.Decoder.DecodeLength(decodeUintFromReader)", func(s []byte) (bool, uint64, int) {
-		var x c12Len
-		n, err := types.NewDecoder().DecodeWithConsumed(s, &x)
-		return err == nil, x.V, n
-	}},
+	// (types.Decoder.DecodeLength was an entry point here until the repair of KF-C14-1 gave it an
+	// additional, documented rule — a length prefix larger than the remaining input is rejected —
+	// which is not part of the natural-number encoding. The underlying reader it shares with
+	// DecodeInteger (decodeUintFromReader) stays covered by the entry above; the encoder side
+	// EncodeLength stays covered below.)
 	{"utilities.DeserializeU64", func(s []byte) (bool, uint64, int) {
 		v, err := utilities.DeserializeU64(types.ByteSequence(s))
 		return err == nil, uint64(v), -1
